@@ -38,16 +38,19 @@ class Values:
     def mk(self, spec):
         k = spec['k']
         x = spec.get('x')
+        # (every call builds a new object - or returns an interpreter-wide singleton - whatever objects the case itself is made
+        # of: a generated case shares its literals, the same case read back from a replay file does not, and a change that
+        # compares by identity must fail the same way in both)
         if k == 'int':
-            v = int(x)
+            v = int(str(int(x)))
         elif k == 'bool':
             v = bool(x)
         elif k == 'float':
-            v = float(x)
+            v = float(repr(float(x)))
         elif k == 'nan':
             v = float('nan')
         elif k == 'str':
-            v = str(x)
+            v = ''.join(list(str(x)))
         elif k == 'bytes':
             v = str(x).encode()
         elif k == 'none':
